@@ -97,6 +97,57 @@ func runFDExitState(c *core.Ctx) {
 		}
 		return out, len(out) > 0
 	}
+	// localStates: the state constants assigned to a local variable, with the assigning atoms
+	type localState struct {
+		st types.Object
+		at ast.Node
+	}
+	localStates := func(o types.Object) ([]localState, bool) {
+		v, isVar := o.(*types.Var)
+		if !isVar || v.IsField() || v.Pkg() != pk.Types || !(fn.Decl.Pos() <= v.Pos() && v.Pos() < fn.Decl.End()) {
+			return nil, false
+		}
+		var out []localState
+		okAll := true
+		ast.Inspect(fn.Body(), func(m ast.Node) bool {
+			switch x := m.(type) {
+			case *ast.AssignStmt:
+				for i, l := range x.Lhs {
+					if an.ObjOf(info, l) != o {
+						continue
+					}
+					if len(x.Rhs) != len(x.Lhs) {
+						okAll = false
+						continue
+					}
+					k, isConst := an.ObjOf(info, x.Rhs[i]).(*types.Const)
+					if !isConst {
+						okAll = false
+						continue
+					}
+					out = append(out, localState{k, x})
+				}
+			case *ast.ValueSpec:
+				for i, nm := range x.Names {
+					if info.Defs[nm] != o {
+						continue
+					}
+					if i >= len(x.Values) {
+						okAll = false
+						continue
+					}
+					k, isConst := an.ObjOf(info, x.Values[i]).(*types.Const)
+					if !isConst {
+						okAll = false
+						continue
+					}
+					out = append(out, localState{k, x})
+				}
+			}
+			return true
+		})
+		return out, okAll && len(out) > 0
+	}
 	runs := g.FindAtoms(func(a ast.Node) bool { return callsMethodOf(info, a, an.PkgDistsys, "MPCalContext", "Run") })
 	if len(runs) != 1 {
 		c.Lost("RunArchetype:Run", "expected one ctx.Run() call, found %d", len(runs))
@@ -146,6 +197,15 @@ func runFDExitState(c *core.Ctx) {
 		}
 		o := an.ObjOf(info, call.Args[1])
 		if o == failed || o == finished {
+			return true
+		}
+		// a local that only ever holds final states (`end := failed; if err == nil { end = finished }; setState(id, end)`)
+		if vals, ok := localStates(o); ok {
+			for _, v := range vals {
+				if v.st != failed && v.st != finished {
+					return false
+				}
+			}
 			return true
 		}
 		if rets, ok := helperReturns(call.Args[1]); ok {
@@ -211,6 +271,36 @@ func runFDExitState(c *core.Ctx) {
 			}
 		}
 		okFin = okFin && guarded
+	}
+	// setState(id, local): every assignment of `finished` to the local is under err == nil
+	for _, a := range g.FindAtoms(func(a ast.Node) bool {
+		call, ok := a.(*ast.CallExpr)
+		return ok && an.IsMethodNamed(an.CalleeFunc(info, call), an.PkgResources, "Monitor", "setState") && len(call.Args) == 2
+	}) {
+		vals, ok := localStates(an.ObjOf(info, a.(*ast.CallExpr).Args[1]))
+		if !ok {
+			continue
+		}
+		for _, v := range vals {
+			if v.st != finished {
+				continue
+			}
+			at := g.AtomOf(v.at)
+			guarded := false
+			for _, blk := range g.CFG.Blocks {
+				cd, _ := g.Cond(blk)
+				if cd == nil || at == nil {
+					continue
+				}
+				if isT, nonNil := nilTestOn(g, info, cd, isErrName); isT && g.GuardedBy(at, cd, !nonNil) {
+					guarded = true
+				}
+			}
+			if len(setStateWith(g, finished)) == 0 {
+				okFin = true
+			}
+			okFin = okFin && guarded
+		}
 	}
 	// setState(helper(err)): every `return finished` of the helper is under err == nil (or the call itself is)
 	for _, a := range g.FindAtoms(func(a ast.Node) bool {
@@ -597,10 +687,17 @@ func runFDRead(c *core.Ctx) {
 		return
 	}
 	condOn := func(st types.Object) []ast.Node {
-		return g.CondAtoms(func(ex ast.Expr) bool {
+		out := g.CondAtoms(func(ex ast.Expr) bool {
 			be, ok := an.Unparen(ex).(*ast.BinaryExpr)
 			return ok && be.Op == token.EQL && (an.ObjOf(info, be.Y) == st || an.ObjOf(info, be.X) == st)
 		})
+		// `switch state { case st: ... }`: the case test is the comparison
+		for _, blk := range g.CFG.Blocks {
+			if cd, tag := g.Cond(blk); cd != nil && tag != nil && an.ObjOf(info, cd) == st {
+				out = append(out, cd)
+			}
+		}
+		return out
 	}
 	rets := g.FindAtoms(func(a ast.Node) bool { _, ok := a.(*ast.ReturnStmt); return ok })
 	okAbort, okFalse, okTrue, other := false, false, false, false
